@@ -88,6 +88,7 @@ def classify_result(res):
 
 
 class LoaderEngine(VectorEngine):
+    fail_fast = True     # skip the random flow once the enumerated graphs have produced violations
     level = "model_checking"
     exec_kw = dict(timeout_ms=20000)
     spec_op = "Loader!RunNext"
@@ -116,7 +117,10 @@ class LoaderEngine(VectorEngine):
                 self.flow_a(ctx, vecs[k:k + 2500], f"{tag}.{k // 2500}")
                 v1, c1, r1 = self.last_results
                 av += v1; ac += c1; ar.update(r1)
-                if ctx.enough():
+                if ctx.enough() or ctx.violations:
+                    # fail fast: on a broken tree every further chunk costs up to 20 re-validations of its traces
+                    if not any("first chunk with violations" in n for n in ctx.notes):
+                        ctx.notes.append("stopped after the first chunk with violations (fail fast): the remaining graphs were not explored")
                     break
             self.last_results = (av, ac, ar)
             return
